@@ -38,3 +38,21 @@ Print Assumptions C17_unknown_local_not_found.
     pipeline, as in the code); their agreement with the OpenAPI specification
     [oapi_spec] of C03 on the same inputs is decided per run by the oracle of
     Corr/C17.v, not proved as a theorem. *)
+
+(** No timestamp of any stored vector is ever lowered by BasicCompute, whatever the outcome. *)
+Theorem C17_timestamps_never_lowered :
+  forall (S : ScalarOps) fuel deps (s : gstate S) q k v ts,
+    aget (g_vecs s) k = Some (v, ts) ->
+    exists v' ts', aget (g_vecs (fst (basic_compute fuel deps s q))) k = Some (v', ts') /\ (ts <= ts')%N.
+Proof. exact @basic_compute_timestamps_monotone. Qed.
+Print Assumptions C17_timestamps_never_lowered.
+
+(** An accepted BasicCompute stamps the global-trust vector with a timestamp at least as new as
+    the local trust's and the pre-trust's. *)
+Theorem C17_result_stamped_with_newest_input :
+  forall (S : ScalarOps) fuel deps (s : gstate S) q c tsc,
+    snd (basic_compute fuel deps s q) = GOk -> aget (g_mats s) (bc_local q) = Some (c, tsc) ->
+    exists v' ts', aget (g_vecs (fst (basic_compute fuel deps s q))) (bc_global q) = Some (v', ts') /\ (tsc <= ts')%N /\
+      (forall pid p tsp, bc_pre q = Some pid -> aget (g_vecs s) pid = Some (p, tsp) -> (tsp <= ts')%N).
+Proof. exact @basic_compute_stamp. Qed.
+Print Assumptions C17_result_stamped_with_newest_input.
